@@ -555,6 +555,10 @@ func (c *fctx) properties(kw string, n int, depth int, names *fieldNames, marker
 	for i := 0; i < n; i++ {
 		name := c.g.fieldName(names)
 		ft := c.fieldType(depth, false)
+		for kw == "option" && (strings.HasPrefix(ft.typ, "array:") || strings.HasPrefix(ft.typ, "map:")) {
+			// L16: repeated / map members of a oneof are not valid proto
+			ft = c.fieldType(depth, false)
+		}
 		out = append(out, c.renderProperty(kw, name, ft, markers)...)
 	}
 	return out
@@ -567,8 +571,12 @@ func (c *fctx) renderProperty(kw, name string, ft ftype, markers bool) []string 
 	marker := ""
 	var extra []string
 	isRepeated := strings.HasPrefix(ft.typ, "array:") || strings.HasPrefix(ft.typ, "map:")
+	isMap := strings.HasPrefix(ft.typ, "map:")
 	if markers {
 		x := r.intn(100)
+		if isMap && x < 30 {
+			x = 99 // L17: required map field panics
+		}
 		switch {
 		case x < 24:
 			marker = "! "
